@@ -752,9 +752,11 @@ class Dataset(ABC):
         if split not in ["train", "val", "test"]:
             raise ValueError(f"The split named '{split}' is not available. "
                              f"Needs to be either 'train', 'val', or 'test'.")
-        indices = self.df.index[self.df[self.split_col] ==
-                                SPLIT_TO_NUM[split]].tolist()
-        return self[indices]
+        # NOTE: Select by row position, not by index label: the labels of
+        # `self.df` are arbitrary (e.g., after `shuffle()` or `index_select()`)
+        mask = (self.df[self.split_col] == SPLIT_TO_NUM[split]).to_numpy()
+        indices = mask.nonzero()[0].tolist()
+        return self.index_select(indices)
 
     def split(self) -> tuple[Dataset, Dataset, Dataset]:
         r"""Splits the dataset into training, validation and test splits."""
